@@ -1,5 +1,7 @@
 import Ptk.Proto
 import Ptk.Model.C13
+import Ptk.Model.C13Fixed
+import Ptk.Model.C13Mem
 import Ptk.Gen.C13
 open Ptk Ptk.Py Ptk.Proto Ptk.C13
 
@@ -30,6 +32,9 @@ structure DrvSt where
   fs : FS
   th : TH
   tn : THn
+  tx : THF
+  hm : Hist
+  tm : THm
 
 def npcCode : NPc → String
   | .notStarted => "-" | .started => "start" | .called => "called" | .iter => "iter"
@@ -61,6 +66,66 @@ def thLine (t : TH) : String :=
   let ev := if t.cpc = .waiting ∨ t.cpc = .reading ∨ t.cpc = .yielding then encBool t.ev else "N"
   let pend := match t.pend with | some s => encStr s | none => "N"
   s!"L={lpcCode t.lpc} C={cpcCode t.cpc} ev={ev} loaded={encBool t.loaded} pend={pend} strs={encStrs t.strs} out={encStrs t.out} store={encStrs t.storage}"
+
+def thxLine (t : THF) : String :=
+  let act := t.cpc = .waiting ∨ t.cpc = .reading ∨ t.cpc = .yielding
+  let ev := if act then encBool t.ev else "N"
+  let nev := if act then "1" else "0"
+  s!"L={lpcCode t.lpc} C={cpcCode t.cpc} ev={ev} loaded={encBool t.loaded} ins={t.inserted} nev={nev} strs={encStrs t.strs} out={encStrs t.out} store={encStrs t.storage}"
+
+def parseStepF : List String → Option StepF
+  | ["x", "cstart"] => some .cstart | ["x", "cwait"] => some .cwait | ["x", "cread"] => some .cread
+  | ["x", "cyield"] => some .cyield | ["x", "ccancel"] => some .ccancel
+  | ["x", "lreset"] => some .lreset | ["x", "lappend"] => some .lappend
+  | ["x", "lnotify"] => some .lnotify | ["x", "ldone"] => some .ldone | ["x", "lfinal"] => some .lfinal
+  | ["x", "lfail"] => some .lfail
+  | ["x", "app", s] => do pure (.app (← decStr s))
+  | _ => none
+
+def consMLine (c : ConsM) : String :=
+  let ev := if c.cpc = .waiting ∨ c.cpc = .reading ∨ c.cpc = .yielding then encBool c.ev else "N"
+  s!"{cpcCode c.cpc} {ev} {encStrs c.out}"
+
+def tmLine (t : THm) : String :=
+  s!"L={npcCode t.lpc} loaded={encBool t.loaded} ins={t.inserted} strs={encStrs t.strs} events={encList toString t.events} store={encStrs t.storage} | {consMLine (t.cons 0)} | {consMLine (t.cons 1)} | {consMLine (t.cons 2)}"
+
+def parseStepM : List String → Option StepM
+  | ["m", "c", i, "start"] => do pure (.cstart (← decNat i))
+  | ["m", "c", i, "wait"] => do pure (.cwait (← decNat i))
+  | ["m", "c", i, "read"] => do pure (.cread (← decNat i))
+  | ["m", "c", i, "yield"] => do pure (.cyield (← decNat i))
+  | ["m", "c", i, "cancel"] => do pure (.ccancel (← decNat i))
+  | ["m", "l", "reset"] => some .lreset | ["m", "l", "append"] => some .lappend
+  | ["m", "l", "notify"] => some .lnotify | ["m", "l", "set"] => some .lset
+  | ["m", "l", "done"] => some .ldone | ["m", "l", "final"] => some .lfinal
+  | ["m", "l", "fail"] => some .lfail
+  | ["m", "app", s] => do pure (.app (← decStr s))
+  | _ => none
+
+def gpcCode : GPc → String
+  | .none => "none" | .fresh => "fresh" | .iter => "iter"
+
+def histLine (h : Hist) : String :=
+  s!"loaded={encBool h.loaded} strs={encStrs h.strs} g={gpcCode h.gpc} out={encStrs h.out}"
+
+/-- `n` entries `(ts, s)` -/
+def decEntries : Nat → List String → Option (List (Text × Text) × List String)
+  | 0, rest => some ([], rest)
+  | n + 1, ts :: s :: rest => do
+    let ts ← decStr ts
+    let s ← decStr s
+    let (es, rest) ← decEntries n rest
+    pure ((ts, s) :: es, rest)
+  | _, _ => none
+
+def decProcs : Nat → List String → Option (List (List (Text × Text)) × List String)
+  | 0, rest => some ([], rest)
+  | n + 1, k :: rest => do
+    let k ← decNat k
+    let (es, rest) ← decEntries k rest
+    let (ps, rest) ← decProcs n rest
+    pure (es :: ps, rest)
+  | _, _ => none
 
 def parseStep : List String → Option Step
   | ["cstart"] => some .cstart | ["cwait"] => some .cwait | ["cread"] => some .cread
@@ -143,6 +208,65 @@ def stepLine (d : DrvSt) (toks : List String) : DrvSt × String :=
         ({ d with th := t }, thLine t)
       | _ => (d, "bad-op")
     | none => (d, "bad-op")
+  | "hnew" :: "mem" :: rest =>
+    match decStrs rest with
+    | some (init, []) => let h := Hist.mem init; ({ d with hm := h }, histLine h)
+    | _ => (d, "bad-op")
+  | ["hnew", "dummy"] => let h := Hist.dummy; ({ d with hm := h }, histLine h)
+  | ["h", "app", s] =>
+    match decStr s with
+    | some s => let h := d.hm.apply Gen.C13.inlineCopies (.append s); ({ d with hm := h }, histLine h)
+    | none => (d, "bad-op")
+  | ["h", "load"] =>
+    let (h, l) := d.hm.load
+    ({ d with hm := h }, encStrs l)
+  | ["h", "get"] => (d, encStrs d.hm.getStrings)
+  | ["h", "gnew"] => let h := d.hm.apply Gen.C13.inlineCopies .gnew; ({ d with hm := h }, histLine h)
+  | ["h", "gnext"] => let h := d.hm.apply Gen.C13.inlineCopies .gnext; ({ d with hm := h }, histLine h)
+  | ["frawapp", b] =>
+    match decBytes b with
+    | some b =>
+      let fs := { d.fs with file := d.fs.file ++ b }
+      ({ d with fs := fs }, encBytes fs.file)
+    | none => (d, "bad-op")
+  | "mw" :: n :: rest =>
+    -- several processes, their `write()` calls in the given order
+    match decNat n with
+    | some n =>
+      match decProcs n rest with
+      | some (procs, [order]) =>
+        match decBytes order with
+        | some order =>
+          let file := interleaveWrites (procs.map (procWrites (Gen.C13.storeWrites == 1) utf8)) order
+          (d, encBytes file ++ " | " ++ encStrs (loadFile utf8 file))
+        | none => (d, "bad-op")
+      | _ => (d, "bad-op")
+    | none => (d, "bad-op")
+  | "xnew" :: rest =>
+    match decStrs rest with
+    | some (old, rest) =>
+      match decStrs rest with
+      | some (pre, []) =>
+        let t := THF.init old pre
+        ({ d with tx := t }, thxLine t)
+      | _ => (d, "bad-op")
+    | none => (d, "bad-op")
+  | ["x", "nop"] => (d, thxLine d.tx)
+  | "mnew" :: rest =>
+    match decStrs rest with
+    | some (old, rest) =>
+      match decStrs rest with
+      | some (pre, []) =>
+        let t := THm.init old pre
+        ({ d with tm := t }, tmLine t)
+      | _ => (d, "bad-op")
+    | none => (d, "bad-op")
+  | ["m", "nop"] => (d, tmLine d.tm)
+  | ["nl", "resetsnap"] =>
+    -- the repaired code: list reset and snapshot are one locked block = two model steps at once
+    let t := stepN Gen.C13.notifyCopies (stepN Gen.C13.notifyCopies d.tn .lreset) .lsnap
+    ({ d with tn := t }, tnLine t)
+  | ["nl", "nop"] => (d, tnLine d.tn)
   | "nnew" :: rest =>
     match decStrs rest with
     | some (old, rest) =>
@@ -162,6 +286,16 @@ def stepLine (d : DrvSt) (toks : List String) : DrvSt × String :=
       | some s =>
         let t := stepN Gen.C13.notifyCopies d.tn s
         ({ d with tn := t }, tnLine t)
-      | none => (d, "bad-op")
+      | none =>
+        match parseStepF toks with
+        | some s =>
+          let t := stepF d.tx s
+          ({ d with tx := t }, thxLine t)
+        | none =>
+          match parseStepM toks with
+          | some s =>
+            let t := stepM d.tm s
+            ({ d with tm := t }, tmLine t)
+          | none => (d, "bad-op")
 
-def main : IO Unit := runS stepLine { fs := FS.empty, th := TH.init [] [], tn := THn.init [] [] }
+def main : IO Unit := runS stepLine { fs := FS.empty, th := TH.init [] [], tn := THn.init [] [], tx := THF.init [] [], hm := Hist.dummy, tm := THm.init [] [] }
